@@ -132,12 +132,20 @@ func (x *c18) connect(group, id string) *stream {
 		defer res.Body.Close()
 		sc := bufio.NewScanner(res.Body)
 		sc.Buffer(make([]byte, 1<<16), 1<<24)
+		// event-stream rules: an event ends at a blank line; its data is the data lines joined by newlines
+		var data []string
 		for sc.Scan() {
 			line := sc.Text()
-			if strings.HasPrefix(line, "data: ") {
+			switch {
+			case strings.HasPrefix(line, "data: "):
+				data = append(data, strings.TrimPrefix(line, "data: "))
+			case strings.HasPrefix(line, "data:"):
+				data = append(data, strings.TrimPrefix(line, "data:"))
+			case line == "" && len(data) > 0:
 				s.mu.Lock()
-				s.got = append(s.got, strings.TrimPrefix(line, "data: "))
+				s.got = append(s.got, strings.Join(data, "\n"))
 				s.mu.Unlock()
+				data = nil
 			}
 		}
 		if !s.byClient.Load() {
@@ -445,6 +453,26 @@ func (x *c18) judge(confirmed map[string]*stream, fail func(string, string, ...a
 	x.mmu.Lock()
 	msgs := append([]*msgRec{}, x.msgs...)
 	x.mmu.Unlock()
+	// framing: every event a listener received is exactly one message that was handed to the transport
+	sentBodies := map[string]bool{}
+	for _, m := range msgs {
+		sentBodies[m.body] = true
+	}
+	x.smu.Lock()
+	allStreams := append([]*stream{}, x.streams...)
+	x.smu.Unlock()
+	for _, s := range allStreams {
+		s.mu.Lock()
+		got := append([]string{}, s.got...)
+		s.mu.Unlock()
+		for _, g := range got {
+			x.c.rep.Hit("ledger.received-event-judged")
+			if !sentBodies[g] {
+				fail("stream-event-is-not-one-message", "stream %s/%s received an event whose data is not exactly one message handed to the transport: %q", s.group, s.id, g)
+				break
+			}
+		}
+	}
 	for _, m := range msgs {
 		rc := x.receivers(m.body)
 		dn := m.done.Load()
